@@ -119,6 +119,14 @@ CHECKS.update({
             "Three real nodes (source, load target, twin) on one generated chain; seeded mempool histories on the source (chains, prioritisation incl. absent txids, unbroadcast marks, clock to the expiry boundary +-1 s, blocks, reorgs), then DumpMempool through simfs with ENOSPC/short write/fsync EIO/disk-full-for-good and enumeration of every kill and power-loss image of the dump's file operations; LoadMempool through the FopenFn seam from intact, re-keyed, v1, short-read, truncated (12 structural offset classes and full sweeps), EIO, byte-flipped, bad-version/key and missing files into a target that may already hold entries. Dump file == pool (wtxid, time, delta; parents first; absent deltas; unbroadcast set); failed dump leaves the previous complete file; every crash image is the old or new complete file; intact load == twin's normal submission of the unexpired records in order with saved time/delta/unbroadcast; damaged load returns false on strict prefix/EIO/missing, adds only what the twin accepts and loses no pre-existing entry except by expiry or an accepted conflict.",
             "Loading into the very node that dumped is covered by a fresh node on the same chain; mempool size/min-fee knobs not varied; power-loss semantics are the simfs model (see C16).",
             "deterministic simulation with fault injection: real DumpMempool/LoadMempool over simfs crash images and a scripted FopenFn; oracle = own file parser + twin node", "DESIGN.md §5 C55"),
+    "C17": ("crashsim/blockstore", "fault_enumeration",
+            "On-disk regtest node with 64 KiB block files and random XOR obfuscation; seeded batches of 2-60 blocks of 200 B..260 KB (thorough 940 KB) delivered in four orders across file boundaries, reorg branches, flushes, clean restarts, manual pruning and re-delivery of pruned blocks. Intact records: ReadBlock (3 forms), ReadRawBlock (whole and parts) and ReadBlockUndo equal the generator's block / the model's spent coins, and an own decoder (own XOR by file offset) finds magic, size, bytes and the undo checksum SHA256d(prev||body) at the indexed position. Damage (bit flip, zeroed 512-byte sector, truncation; per run one record gets a flip at EVERY framing/header/undo-framing/checksum byte, every field-boundary truncation and every overlapping sector) under the running node or across a restart: changed magic/header/size/undo body/undo checksum must be read failures, untouched records still read intact; after invalidateblock + damage + reconsiderblock a block whose record changed is not in the active chain. Write faults (ENOSPC, EIO, short write, fsync EIO, fallocate ENOSPC at the n-th file operation of ProcessNewBlock or of the flush, in a forked child) must surface loudly and every stored entry must read back identical after restart.",
+            "Two known findings (size field not validated; coinbase-witness-only damage re-connected) are listed in known_findings.txt and raised as deferred violations at the end of a run so that they mask no other clause. Failed directory fsync / fallocate are advisory in the tree; reindex and signet not covered.",
+            "deterministic simulation with fault injection: real block storage over the recorded file layer, seeded and per-byte enumerated corruptions, injected write faults; oracle = generator bytes + reference chain model + own on-disk decoder", "DESIGN.md §5 C17"),
+    "C15": ("compsim/coins-layers", "fault_enumeration",
+            "1-3 real CCoinsViewCache / CoinsViewOverlay layers over a real CCoinsViewDB (LevelDB in memory, or on disk through the recorded file layer); dense seeded sequences (3-2500 ops) of AddCoin (incl. legal/illegal overwrite), SpendCoin, all five lookups, Uncache, Sync, Flush, push/pop of layers, Reset, SetBestBlock over 1-12 outpoints with tiny DB batch sizes; after EVERY operation every layer's PeekCoin for every outpoint equals a per-layer map model, reads equal the model, after Flush/Sync parent == child and a DB cursor scan equals the model DB, Uncache/Reset contracts, own recomputation of cachedCoinsUsage / DynamicMemoryUsage / dirty count, the FRESH/DIRTY entry-state contract against the model's parent view, SanityCheck. Faults: dirty restart (caches dropped, DB reopened) and a crash at seeded or (thorough) EVERY I/O index inside every CCoinsViewDB::BatchWrite under kill and power-loss semantics: the image must be the old state, the new state, or a marked transition (head blocks set, best block null, every entry old or new).",
+            "Only the top layer is mutated while children exist (API contract); operation sequences are densely sampled, not enumerated; the overlay runs without worker threads here (threads: C14).",
+            "deterministic simulation with fault injection: real cache stack + LevelDB over simfs, seeded operation histories, enumerated crash points inside batch writes; oracle = per-layer map model", "DESIGN.md §5 C15"),
     "C23": ("nodesim/block-template", "exploration",
             "MempoolSim histories plus own ops (nLockTime at height/MTP -1/0, sigop-heavy outputs, prioritisation, reorgs to MTP+1-time branches lowering the MTP) with the clock stepping backwards before template creation; per-template option space: max weight aimed at the weight of the first k baseline transactions +-1..3, reserved weight, block_min_fee_rate, coinbase sigop reservation aimed at 80000 - sigops(first k) +-1..5, use_mempool, 7 coinbase scripts. Every template: on tip, one coinbase, no duplicates, parents first, inputs in model UTXO or earlier in the template, fees == inputs - outputs, own weight sum + reserved <= max, own sigop count + reservation <= 80000, every tx final for tip+1 at MTP by the model, coinbase == subsidy + fees, TestBlockValidity on the raw and the solved block, model verdict VALID, and ProcessNewBlock makes it the tip of a cold twin node (or of the node itself).",
             "Landing exactly on a limit is within the limit; block_min_fee_rate and per-tx sigop entries are not in the statement and not decided.",
